@@ -65,35 +65,70 @@ def run_async(scn, sched_tape, step_cap=None):
     return sim, reqs, results, status, al
 
 
+def _strict_eligible(rs, key):
+    """Subtree of root field `key` cannot orphan work: every injected fault sits on an
+    asynchronously delivered position (so failures surface through the awaited gather path,
+    which cancels and awaits siblings) and no list source fails."""
+    pl = rs.planner
+    for path, fp in pl.fields.items():
+        if path[0] == key and fp.fault and fp.delivery == "sync":
+            return False
+    for path, ip in pl.items.items():
+        if path[0] == key and ip.fault and ip.delivery == "sync":
+            return False
+    for path, lp in pl.lists.items():
+        if path[0] == key and lp.fail_after is not None:
+            return False
+    for path, ap in pl.abstr.items():
+        if path[0] == key and ap.fault:
+            if not _async_position(pl, path):
+                return False
+    for (path, _tn), ip in pl.istypes.items():
+        if path[0] == key and (ip.fault or ip.delivery != "sync"):
+            return False
+    return True
+
+
+def _async_position(pl, path):
+    fp = pl.fields.get(path)
+    if fp is not None:
+        return fp.delivery != "sync"
+    ip = pl.items.get(path)
+    return ip is not None and ip.delivery != "sync"
+
+
 def mutation_seriality(sim, req, rs, data):
-    """Oracle 5: root field j starts only after subtree i<j (as present in data) completed."""
+    """Oracle 5: root field j starts only after root field i<j and its subtree completed.
+
+    Work under a position that did not make it into the response (orphaned by a non-null
+    failure) is exempt, except in subtrees that cannot orphan work (see _strict_eligible),
+    where everything - including cancellation clean-up - must be over before j starts.
+    """
     if rs.kind != "mutation" or data is None:
         return None
-    roots = [p for p in rs.result.order if len(p) == 1]
+    keys = [p[0] for p in rs.result.order if len(p) == 1]
     inv_at = {}
     last_activity = {}
-    tag = f":{req.idx}:"
+    last_any = {}
     for n, ev in enumerate(sim.events):
         if ev[0] == "inv" and ev[1] == req.idx:
-            path = tuple(x for x in ev[2].split("/")[1:])
+            path = tuple(int(x) if x.isdigit() else x for x in ev[2].split("/")[1:])
             key = path[0]
             if len(path) == 1 and key not in inv_at:
                 inv_at[key] = n
-            # invocation inside a subtree counts as activity of that subtree
-            if _present(data, ev[2]):
-                last_activity[key] = n
-        elif ev[0] == "fire" and tag in ev[2] and not ev[2].startswith("ito:"):
-            label = ev[2]
-            pos = label.split(":", 2)[2]
-            ppath = pos.split("~")[0].split("#")[0].split("@")[0]
-            if "." in ppath.rsplit("/", 1)[-1]:
-                ppath = ppath.rsplit(".", 1)[0]
-            parts = [x for x in ppath.split("/")[1:]]
-            if not parts:
-                continue
-            if _present(data, "/" + "/".join(parts)):
-                last_activity[parts[0]] = n
-    keys = [p[0] for p in roots]
+            last_any[key] = (n, ev)
+            if _present(data, path):
+                last_activity[key] = (n, ev)
+    for e in sim.externals:
+        if e.owner != req.idx or e.pos is None or e.fired_event is None or e.kind == "ito":
+            continue
+        key = e.pos[0]
+        n = e.fired_event
+        if key not in last_any or last_any[key][0] < n:
+            last_any[key] = (n, ("fire", e.label))
+        if _present(data, e.pos):
+            if key not in last_activity or last_activity[key][0] < n:
+                last_activity[key] = (n, ("fire", e.label))
     for j in range(1, len(keys)):
         kj = keys[j]
         if kj not in inv_at:
@@ -101,26 +136,23 @@ def mutation_seriality(sim, req, rs, data):
         for i in range(j):
             ki = keys[i]
             la = last_activity.get(ki)
-            if la is not None and la > inv_at[kj]:
+            if la is not None and la[0] > inv_at[kj]:
                 return Violation(PROP, "mutation_overlap", {"later_started_before": "earlier_done"},
-                                 {"earlier": ki, "later": kj, "event": list(map(str, sim.events[la]))})
-            if ki not in inv_at and ki in (data or {}):
-                return Violation(PROP, "mutation_overlap", {"later_started_before": "earlier_started"},
-                                 {"earlier": ki, "later": kj})
+                                 {"earlier": ki, "later": kj, "event": list(map(str, la[1]))})
             if ki in inv_at and inv_at[ki] > inv_at[kj]:
                 return Violation(PROP, "mutation_overlap", {"order": "reversed"},
                                  {"earlier": ki, "later": kj})
+            la = last_any.get(ki)
+            if la is not None and la[0] > inv_at[kj] and _strict_eligible(rs, ki):
+                return Violation(PROP, "mutation_overlap",
+                                 {"later_started_before": "earlier_cancelled_work_settled"},
+                                 {"earlier": ki, "later": kj, "event": list(map(str, la[1]))})
     return None
 
 
-def _present(data, pstr_):
-    parts = [x for x in pstr_.split("/")[1:]]
-    path = tuple(int(x) if x.isdigit() else x for x in parts)
-    found, _ = value_at(data, path[:-1]) if path else (True, None)
-    if not found:
-        return False
+def _present(data, path):
     found, parent = value_at(data, path[:-1])
-    return parent is not None
+    return found and parent is not None
 
 
 def run_unit(seed=None, unit=None, tier="quick", stats=None):
@@ -206,6 +238,7 @@ def run_unit(seed=None, unit=None, tier="quick", stats=None):
             bump(stats, "probes", "cancelled_externals",
                  sum(1 for e in sim.externals if e.state == "cancelled"))
             bump(stats, "probes", "never_retrieved_reports", len(sim.loop.exc_reports))
+            bump(stats, "probes", "slow_cancellations", sum(q.slow_cancels for q in reqs))
             bump(stats, "probes", "asyncgen_finalizer_hits", len(sim.loop.finalizer_hits))
         for v in vs:
             v.detail["sched_index"] = r
